@@ -102,6 +102,19 @@ Definition fetch (w : world) (s : source) : option N :=
   | Reject _ => None
   end.
 
+(** The HTTP client as the world sees it is the table [w_http]: what comes
+    back for a location handed to [HttpGet].  A marker names a content; the
+    hypothesis under which the property can hold at all is that the client
+    never hands back the content of a local file (it speaks http(s) only; a
+    transport with a handler for the file scheme would).  Executable form,
+    evaluated by the harness on what the client that package home really
+    builds returned for every spelling it was given. *)
+Definition is_file_marker (files : list (bytes * N)) (m : N) : bool :=
+  existsb (fun x => snd x =? m) files.
+
+Definition client_no_local_b (files http : list (bytes * N)) : bool :=
+  forallb (fun x => negb (is_file_marker files (snd x))) http.
+
 Record flt := {
   f_url : bytes;
   f_enabled : bool;
